@@ -474,9 +474,111 @@ impl<C: Suite> Model for M11<C> {
     }
 }
 
+// ---- the sealer's ephemeral scalar and the recipient's key in a simple relation -----------------------------------
+//
+// u = g^r and pk = g^sk are points of the same group; nothing stops a recipient key from being r, -r, 2r or r + 1 for
+// the r a sealer draws (the entropy answer fixes r, the recipient key is then derived from it). The ciphertext is an
+// honest one and must open.
+
+#[derive(Clone, Copy, Debug, PartialEq, Eq, Hash, Serialize, Deserialize)]
+pub struct AliasSt {
+    s: Scheme,
+    rel: u8,
+    len: usize,
+}
+
+const ALIAS: [&str; 5] = ["sk == r (u == pk)", "sk == -r (u == -pk)", "sk == 2r", "sk == r + 1", "sk == 1/r"];
+
+pub struct M11Alias<C: Suite> {
+    seed: u64,
+    _c: PhantomData<C>,
+}
+
+impl<C: Suite> Model for M11Alias<C> {
+    type State = Option<AliasSt>;
+    type Action = AliasSt;
+    fn name(&self) -> String {
+        format!("c11-recipient-key-related-to-the-ephemeral-scalar/{}", C::G)
+    }
+    fn init(&self) -> Vec<Option<AliasSt>> {
+        vec![None]
+    }
+    fn actions(&self, st: &Option<AliasSt>) -> Vec<AliasSt> {
+        if st.is_some() {
+            return vec![];
+        }
+        let mut v = vec![];
+        for s in SCHEMES {
+            for rel in 0..ALIAS.len() as u8 {
+                for len in [0usize, 5, 40] {
+                    v.push(AliasSt { s, rel, len });
+                }
+            }
+        }
+        v
+    }
+    fn step(&self, _s: &Option<AliasSt>, a: &AliasSt) -> Option<Option<AliasSt>> {
+        Some(Some(*a))
+    }
+    fn describe(&self, st: &Option<AliasSt>) -> String {
+        format!("{} signcryption to a recipient whose key is related to the sealer's ephemeral scalar: {:?}", C::G, st.map(|s| (s.s.name(), ALIAS[s.rel as usize], s.len)))
+    }
+    fn required_outcomes(&self) -> Vec<String> {
+        vec!["related-recipient:opens".into()]
+    }
+    fn check(&self, st: &Option<AliasSt>, o: &mut Obs) {
+        use bls12_381_plus::ff::Field as _;
+        let Some(st) = st else { return };
+        o.nontrivial = true;
+        let g = C::G;
+        let seed = data32(self.seed, "c11-alias-entropy");
+        let r = rf::hash_to_scalar(&drawn(&seed), rf::SALT_SIGNCRYPT);
+        let rsk = match st.rel {
+            0 => r,
+            1 => -r,
+            2 => r + r,
+            3 => r + bls12_381_plus::Scalar::ONE,
+            _ => r.invert().unwrap(),
+        };
+        let sk = sk_from_be::<C>(&rf::scalar_to_be(&rsk)).unwrap();
+        let pk = sk.public_key();
+        let msg = msg_of(self.seed, st.len, 3);
+        let ls = lib_scheme(st.s);
+        let ct = match with_env(vec![seed], None, || pk.sign_crypt(ls, &msg)) {
+            Ok(c) => c,
+            Err(p) => {
+                o.expect(&format!("C11:related-recipient:{}:seal", g), false, "returns", &p);
+                return;
+            }
+        };
+        if st.rel == 0 {
+            assert!(ct.u == pk.0, "the entropy answer does not give the ephemeral scalar the reference computes");
+        }
+        let rpk = rf::sk_to_pk::<C::R>(&rsk);
+        let rct = rf::signcrypt_seal::<C::R>(&rpk, &msg, st.s, &drawn(&seed));
+        let same = pt(&ct.u) == rf::enc(&rct.u) && ct.v == rct.v && pt(&ct.w) == rf::enc(&rct.w);
+        let r2 = guard(|| {
+            let valid = bool::from(ct.is_valid());
+            let whole = Option::<Vec<u8>>::from(ct.decrypt(&sk));
+            let by_key = Option::<Vec<u8>>::from(sk.sign_decryption_key::<&[u8]>(&ct).decrypt(&ct));
+            let trait_level = Option::<Vec<u8>>::from(<C as BlsSignCrypt>::unseal(ct.u, &ct.v, ct.w, &sk.0, <C as BlsSignatureBasic>::DST));
+            (valid, whole, by_key, trait_level)
+        });
+        o.calls(5);
+        let sn = st.s.name();
+        let ropen = rf::signcrypt_open::<C::R>(&rct.u, &rct.v, &rct.w, st.s, &rsk);
+        let ok = same && ropen.as_ref() == Some(&msg) && matches!(&r2, Ok((true, Some(a), Some(b), _)) if *a == msg && *b == msg);
+        o.outcome(if ok { "related-recipient:opens" } else { "related-recipient:fails" });
+        o.expect(&format!("C11:related-recipient:{}:{}:{}", g, sn, ALIAS[st.rel as usize]), ok, "bit-identical to the reference; valid; the message by whole key and by decryption key", &format!("same={} reference={:?} library={:?}", same, ropen.map(|m| m.len()), r2.map(|(v, a, b, c)| (v, a.map(|m| m.len()), b.map(|m| m.len()), c.map(|m| m.len())))));
+    }
+}
+
 pub fn models(tier: Tier, seed: u64) -> Vec<Box<dyn DynModel>> {
     let mut v: Vec<Box<dyn DynModel>> = vec![bounded(M11::<Bls12381G1Impl>::new(tier, seed), 2), bounded(M11::<Bls12381G2Impl>::new(tier, seed), 2)];
     v.extend(crate::props::tsurf::models("C11", tier, seed));
+    v.extend(crate::props::mask::models("C11", seed));
+    v.push(bounded(M11Alias::<Bls12381G1Impl> { seed, _c: PhantomData }, 1));
+    v.push(bounded(M11Alias::<Bls12381G2Impl> { seed, _c: PhantomData }, 1));
     v
 }
 
